@@ -147,6 +147,11 @@ func splitPlainTLS(stream []byte, stop func(m *sber.Msg) bool) (plainFrames int,
 
 type c13Timing struct{ D1, D2, D3 int }
 
+// c13Wait bounds one upgrade step; two orders of magnitude above what a
+// handshake needs here, well below the general patience so that a broken
+// upgrade path is reported in reasonable time.
+const c13Wait = 12 * time.Second
+
 func c13Run(c *Ctx) {
 	pki := newPKI()
 	delays := []int{0, 1, 5, 50}
@@ -228,7 +233,7 @@ func c13Timed(c *Ctx, pki *PKI, tm c13Timing, par int, ti int) {
 					return
 				}
 				defer lc.Close()
-				lc.SetTimeout(patience)
+				lc.SetTimeout(c13Wait)
 				if err := lc.StartTLS(pki.ClientPlain); err != nil {
 					c.Violate("a conforming StartTLS session failed", fmt.Sprintf("go-ldap StartTLS with handler delays %v: %v", tm, err), det)
 					return
@@ -251,13 +256,13 @@ func c13Timed(c *Ctx, pki *PKI, tm c13Timing, par int, ti int) {
 				defer cn.Close()
 				cl := wrapClient(cn)
 				cl.Send(sber.Message(1, sber.ExtendedRequest([]byte(sber.OIDStartTLS), nil, false), nil).Encode())
-				m, err := cl.ReadMsg(patience)
+				m, err := cl.ReadMsg(c13Wait)
 				if err != nil || m.ID != 1 || m.Op.Tag != sber.AppExtendedResponse {
 					c.Violate("a conforming StartTLS session failed", fmt.Sprintf("no StartTLS response with handler delays %v: %v", tm, err), det)
 					return
 				}
 				tc := tls.Client(cn, pki.ClientPlain)
-				cn.SetDeadline(time.Now().Add(patience))
+				cn.SetDeadline(time.Now().Add(c13Wait))
 				if err := tc.Handshake(); err != nil {
 					c.Violate("a conforming StartTLS session failed", fmt.Sprintf("handshake after the StartTLS response failed with handler delays %v: %v", tm, err), det)
 					return
